@@ -28,7 +28,13 @@ pub struct Case {
     pub acts: Vec<Act>,
     pub len: usize,
     pub seed: u64,
+    /// after the latest upload has completed: a further WRQ for the same name that the server cannot accept as it
+    /// stands (it carries this unhonourable option value, index into BAD_OPTS)
+    #[serde(default)]
+    pub later_unacceptable_wrq: Option<u8>,
 }
+
+const BAD_OPTS: [(&str, &str); 5] = [("blksize", "7"), ("timeout", "0"), ("windowsize", "0"), ("windowsize", "65536"), ("blksize", "65465")];
 
 pub const KNOWN_SIG: &str = "stale-upload-worker-cleanup";
 
@@ -143,6 +149,24 @@ fn run_case(dir: &Path, c: &Case) -> Result<Vec<&'static str>, (String, String)>
     if at_completion.as_deref() != Some(&data[..]) {
         return Err(("content-at-completion".into(), format!("the most recently accepted upload completed ({} bytes) but the file holds {:?} bytes at that moment", data.len(), at_completion.map(|f| f.len()))));
     }
+    if let Some(b) = c.later_unacceptable_wrq {
+        // a request that is never accepted is no "more recently accepted upload": the completed file stays as it is
+        let (n, v) = BAD_OPTS[b as usize % BAD_OPTS.len()];
+        let extra = Client::new();
+        let o = vec![("timeout".to_string(), "1".to_string()), (n.to_string(), v.to_string())];
+        let o: Vec<(String, String)> = if n == "timeout" { vec![(n.to_string(), v.to_string())] } else { o };
+        match wclient::start(&extra, srv.addr, true, name, &o, Duration::from_millis(600)) {
+            Start::Accepted { .. } => {
+                // the server chose to accept it after all (e.g. by ignoring the value): a newer accepted upload exists,
+                // the sentence about the completed one no longer applies
+                drop(srv);
+                let _ = std::fs::remove_dir_all(&root);
+                classes.push("later-wrq-with-unhonourable-option-was-accepted");
+                return Ok(classes);
+            }
+            _ => classes.push("later-wrq-never-accepted"),
+        }
+    }
     let stale = accepted.len() - 1;
     if stale > 0 {
         // every stale worker gives up after 6 receive timeouts of 1 s
@@ -240,7 +264,7 @@ pub fn strategy() -> BoxedStrategy<Case> {
             if !acts.iter().any(|a| matches!(a, Act::Wrq(_))) {
                 acts.insert(0, Act::Wrq(0));
             }
-            Case { overwrite, single, keep, acts, len, seed }
+            Case { overwrite, single, keep, acts, len, seed, later_unacceptable_wrq: if seed % 3 == 0 { Some((seed / 3 % 5) as u8) } else { None } }
         })
         .boxed()
 }
@@ -251,12 +275,14 @@ fn fixed_cases() -> Vec<Case> {
         for single in [false, true] {
             for keep in [false, true] {
                 // a retransmitted WRQ from the same endpoint, and a second client for the same name
-                out.push(Case { overwrite, single, keep, acts: vec![Act::Wrq(0), Act::Wrq(0)], len: 100, seed: 1 });
-                out.push(Case { overwrite, single, keep, acts: vec![Act::Wrq(0), Act::Partial(0, 1), Act::Wrq(1)], len: 200, seed: 2 });
+                out.push(Case { overwrite, single, keep, acts: vec![Act::Wrq(0), Act::Wrq(0)], len: 100, seed: 1, later_unacceptable_wrq: None });
+                out.push(Case { overwrite, single, keep, acts: vec![Act::Wrq(0), Act::Partial(0, 1), Act::Wrq(1)], len: 200, seed: 2, later_unacceptable_wrq: None });
+                // one completed upload, then a WRQ for the same name that is never accepted
+                out.push(Case { overwrite, single, keep, acts: vec![Act::Wrq(0)], len: 150, seed: 5, later_unacceptable_wrq: Some(if single { 0 } else { 2 }) });
                 if !overwrite && !keep {
                     // the duplicate arrives after the first worker has certainly created its (still empty) file
-                    out.push(Case { overwrite, single, keep, acts: vec![Act::Wrq(0), Act::Pause(500), Act::Wrq(0)], len: 100, seed: 3 });
-                    out.push(Case { overwrite, single, keep, acts: vec![Act::Wrq(0), Act::Pause(500), Act::Wrq(1)], len: 100, seed: 4 });
+                    out.push(Case { overwrite, single, keep, acts: vec![Act::Wrq(0), Act::Pause(500), Act::Wrq(0)], len: 100, seed: 3, later_unacceptable_wrq: None });
+                    out.push(Case { overwrite, single, keep, acts: vec![Act::Wrq(0), Act::Pause(500), Act::Wrq(1)], len: 100, seed: 4, later_unacceptable_wrq: None });
                 }
             }
         }
